@@ -156,6 +156,10 @@ class NPW:
     def __getattr__(self, k):
         return getattr(np, k)
 
+    @property
+    def pi(self):
+        return E().pi() if symx.Engine.cur is not None else np.pi
+
     def full(self, shape, val, dtype=None, **kw):
         if not is_sym(val) and isinstance(val, (int, np.integer, bool, np.bool_)) and (dtype is None or not _isfl(dtype)):
             return np.full(shape, val, dtype=dtype, **kw)
